@@ -1,32 +1,37 @@
 ------------------------- MODULE FileFormatOpsTrace -------------------------
-(* C10, code -> model: the harness runs random operation sequences on real    *)
-(* counter files (random names of any content and length, one or two library  *)
-(* writers and the independent writer) and after every operation logs the     *)
-(* operation and the file as an independent walk of the raw bytes sees it:    *)
-(*   {op, a, name:{id,nlen,b}, k, m,                                          *)
+(* C10, code -> model: the harness runs operation sequences on real counter   *)
+(* files (the replayed behaviours of FileFormatOps and random runs with       *)
+(* random names of any content and length; one or two library writers and the *)
+(* independent writer) and after every operation logs the operation and the   *)
+(* file as an independent walk of the raw bytes sees it:                      *)
+(*   {op, name:{id,nlen,b}, k, m,                                             *)
 (*    obs:{metaLen,hdrLen,size,limit,heads:[{b,off}],recs:[{off,nlen,next,id,val,b}]}} *)
-(* (b of a name = its bucket under the independent hash; id = its identity).  *)
-(* TLC decides whether every logged step is a step of FileFormatOps with the  *)
-(* observed file as its result, and evaluates the layout invariants on every  *)
-(* observed file.  "create" starts a new file (several runs are concatenated). *)
+(* (b of a record = the bucket it hangs in; id = identity of its name bytes).  *)
+(* The observed file becomes the state; TLC evaluates on every observed state  *)
+(* the layout invariants of the property (LayoutOK, Clauses), that the file    *)
+(* holds exactly what was written so far (Exact, against the ghost `want`      *)
+(* maintained from the logged operations) and, on every step, that limit and   *)
+(* size only grow and no record moves or changes (Monotone).  Where the        *)
+(* records are placed is NOT prescribed here: any placement that respects the  *)
+(* layout is accepted.  "create" starts a new file.                            *)
 EXTENDS FileFormatOps, Json
 Trace == ndJsonDeserialize("c10ops.ndjson")
 VARIABLE l
 tvars == <<vars, l>>
 TInit == Init /\ l = 1
-Observed(o) == /\ metaLen' = o.metaLen /\ hdrLen' = o.hdrLen /\ size' = o.size /\ limit' = o.limit
-               /\ DOMAIN heads' = {o.heads[i].b : i \in DOMAIN o.heads}
-               /\ \A i \in DOMAIN o.heads : heads'[o.heads[i].b] = o.heads[i].off
-               /\ recs' = {o.recs[i] : i \in DOMAIN o.recs}
 TNext == /\ l <= Len(Trace)
-         /\ LET e == Trace[l] IN
-            /\ \/ e.op = "create" /\ CreateEff(e.m)
-               \/ e.op = "add" /\ hdrLen # 0 /\ AddEff(e.name, e.k)
-               \/ e.op = "reopen" /\ hdrLen # 0 /\ UNCHANGED <<file, want>>
-            /\ Observed(e.obs)
-            /\ last' = [NoOp EXCEPT !.op = e.op]
+         /\ LET e == Trace[l]  o == Trace[l].obs IN
+            /\ want' = CASE e.op = "create" -> <<>>
+                          [] e.op = "add"    -> [x \in DOMAIN want \cup {e.name.id} |->
+                                                   IF x = e.name.id THEN (IF x \in DOMAIN want THEN want[x] ELSE 0) + e.k ELSE want[x]]
+                          [] OTHER           -> want
+            /\ metaLen' = o.metaLen /\ hdrLen' = o.hdrLen /\ size' = o.size /\ limit' = o.limit
+            /\ heads' = [b \in {o.heads[i].b : i \in DOMAIN o.heads} |-> o.heads[CHOOSE i \in DOMAIN o.heads : o.heads[i].b = b].off]
+            /\ recs' = {o.recs[i] : i \in DOMAIN o.recs}
+            /\ last' = [NoOp EXCEPT !.op = e.op, !.m = e.m]
          /\ nops' = 0
          /\ l' = l + 1
 TSpec == TInit /\ [][TNext]_tvars
+Created  == hdrLen # 0 => metaLen = last.m \/ last.op # "create"     \* a new file carries the metadata it was created with
 Accepted == TLCGet("stats").diameter = Len(Trace) + 1
 =============================================================================
